@@ -143,6 +143,12 @@ def _build_interest(name, it):
             return w[:1] + bytes([w[1] + 1]) + w[2:i] + b'\x24\x01\x00' + w[i + 2:]
         i = w.rindex(target)
         w = w[:i] + bytes([w[i] ^ 0x01]) + w[i + 1:]
+    if dg == 'trailing-unknown':
+        # an unrecognised non-critical element appended at the end of the Interest after the digest was computed: the
+        # parameters digest covers everything from ApplicationParameters to the END of the Interest, so it is stale now
+        el = T.single(w)
+        body = w[el[2]:el[3]] + T.enc_tlv(0xF0, b'\x00')
+        w = T.enc_num(5) + T.enc_num(len(body)) + body
     return w
 
 
@@ -214,6 +220,16 @@ def interest_item(sim, fe, it, r, idx):
             pass
     wire = _build_interest(name, it)
     sim.deliver(wire, 'task')
+    if it.get('attach_during') and rv != 'absent' and isinstance(rv, list):
+        # while the (30 ms) validator of the matching route runs, another handler - without any validator - is attached on a
+        # longer prefix of the Interest's name: the Interest was matched to the first route and its validator; the newcomer
+        # must not receive what its own validation never accepted
+        vl.advance(0.01)
+        late = lambda *a: log.append(('late-handler', vl.now_ms()))      # noqa
+        if fe == 'v2':
+            vl.call(sim.app.attach_handler, name, late)
+        else:
+            vl.call(sim.app.set_interest_filter, name, late, mk_validator('late', False, False))
     vl.advance(0.1)
     if fe == 'legacy' and app_v != 'default':
         from ndn.security import sha256_digest_checker
@@ -249,6 +265,8 @@ def interest_item(sim, fe, it, r, idx):
             want = (sigtype != 0) or not it.get('sigbad')
             consulted = None
     tag = f'{kind}/{dg}/rv={rv!r}/appv={app_v!r}'
+    if any(e[0] == 'late-handler' for e in log):
+        r.bad(f'C05/{fe}/interest/delivered-to-handler-attached-during-validation', f'{tag} log={log}')
     if any(e[0] == 'old-handler' for e in log):
         r.bad(f'C05/{fe}/interest/delivered-to-removed-handler', tag)
     if any(e[0].startswith('old-') and e[0] != 'old-handler' for e in log) and not (delivered and False):
@@ -272,7 +290,7 @@ def interest_item(sim, fe, it, r, idx):
     if verdict == 'RAISE_TIMEOUT':
         sim.vl.collect_errors()       # the validator's own exception ending its task is not this check's business
     nontriv = needs and (dg != 'correct' or rv == 'absent' or isinstance(rv, list) or rv not in ('PASS', 'FAIL', True, False))
-    return (fe, 'interest', kind, dg, repr(rv), repr(app_v), sigtype, bool(it.get('sigbad')), bool(it.get('refused_dup')), bool(it.get('appv_late'))) if nontriv else ()
+    return (fe, 'interest', kind, dg, repr(rv), repr(app_v), sigtype, bool(it.get('sigbad')), bool(it.get('refused_dup')), bool(it.get('appv_late')), bool(it.get('attach_during'))) if nontriv else ()
 
 
 def pair_item(sim, fe, it, r, idx):
@@ -348,11 +366,13 @@ def _grid_items(fe):
     if fe == 'v2':
         rvs += ['RAISE_TIMEOUT', ['slow', 'RAISE_TIMEOUT']]
     for kind in ['plain', 'params', 'params+sig', 'sig']:
-        digs = ['correct'] if kind == 'plain' else ['correct', 'digest-flipped', 'param-flipped', 'missing']
+        digs = ['correct'] if kind == 'plain' else ['correct', 'digest-flipped', 'param-flipped', 'missing', 'trailing-unknown']
         for dg, rv in itertools.product(digs, rvs):
             base = {'side': 'interest', 'ikind': kind, 'digest': dg, 'route_validator': rv}
             if kind in ('params', 'params+sig') and rv in ('absent', verdicts[0], 'PASS', True):
                 yield dict(base, empty_params=True)
+            if kind != 'plain' and dg == 'correct' and isinstance(rv, list):
+                yield dict(base, attach_during=True)
             if kind != 'plain' and dg == 'correct' and rv in ('absent', verdicts[0]):
                 if fe == 'v2':
                     yield dict(base, reattach=True)
